@@ -7,7 +7,7 @@ from . import sym as S, lib as L
 from .models import mk_some, mk_none
 
 STOP = [r"calculate_old_chain_upto_length$", r"calculate_old_chain_for_add_block$", r"is_new_chain_the_longest_chain$"]
-WRITES = r"BlockRing::add_block$|BlockRing::on_chain_reorganization$|BlockRing::delete_block$|(?:AHashMap|HashMap)::<\[u8; 32\], Block[^>]*>::(insert|remove)$|Blockchain::get_mut_block$"
+WRITES = r"BlockRing::add_block$|BlockRing::on_chain_reorganization$|BlockRing::delete_block$|(?:AHashMap|HashMap)::<\[u8; 32\], Block[^>]*>::(insert|remove)$"
 
 
 def explore(ctx, loop_bound=3):
